@@ -8,7 +8,8 @@ Extracted statement by statement (closed set of shapes):
   redun/executors/aws_batch.py ARRAY_JOB_SUFFIX, is_array_job_name, get_batch_job_name,
                                get_hash_from_job_name (suffix strip + the regex literal)
 Hand-modelled in coq/Model/Scratch.v and pinned by shape (tied by the correspondence run):
-  scratch.parse_job_result, scratch.parse_job_error, command.get_oneshot_command,
+  scratch.parse_job_result, scratch.parse_job_error, command.get_oneshot_command (all but the
+  input-staging statement, which is extracted: Overwrite | IfAbsent),
   cli.RedunClient.oneshot_command, aws_batch.AWSBatchExecutor.gather_inflight_jobs / _submit /
   _submit_array_job / _process_job_status / _submit_jobs, aws_batch.submit_task,
   job_array.JobArrayer.add_job / submit_pending_jobs
@@ -16,6 +17,7 @@ Hand-modelled in coq/Model/Scratch.v and pinned by shape (tied by the correspond
 from __future__ import annotations
 
 import ast
+import copy
 import re
 import sys
 
@@ -24,7 +26,6 @@ from .astutil import TranslateError, body_nodoc, fail, find_assign, find_class, 
 PINNED = [
     ("redun/executors/scratch.py", None, "parse_job_result"),
     ("redun/executors/scratch.py", None, "parse_job_error"),
-    ("redun/executors/command.py", None, "get_oneshot_command"),
     ("redun/cli.py", "RedunClient", "oneshot_command"),
     ("redun/executors/aws_batch.py", "AWSBatchExecutor", "gather_inflight_jobs"),
     ("redun/executors/aws_batch.py", "AWSBatchExecutor", "_submit"),
@@ -130,6 +131,25 @@ def translate(pins: dict | None = None):
     # names it passes are extracted so that a renamed constant cannot silently diverge
     cm = load("redun/executors/command.py")
     fn = find_func(cm, "get_oneshot_command")
+    # input staging of a single job: must be an unconditional overwrite before the command is built
+    top = body_nodoc(fn)
+    if not (top and isinstance(top[0], ast.If) and src(top[0].test) == "array_uuid"):
+        fail("get_oneshot_command: expected `if array_uuid:` first", fn)
+    els = top[0].orelse
+    if len(els) != 5 or src(els[3]) != "input_file = File(input_path)":
+        fail("get_oneshot_command: unrecognised single-job branch", top[0])
+    stagings = {
+        "with input_file.open('wb') as out:\n    pickle_dump([args, kwargs], out)": "Overwrite",
+        "if not input_file.exists():\n    with input_file.open('wb') as out:\n        pickle_dump([args, kwargs], out)": "IfAbsent",
+    }
+    if src(els[4]) not in stagings:
+        fail(f"get_oneshot_command: unrecognised input staging {src(els[4])!r}", els[4])
+    stage_input = stagings[src(els[4])]
+    if any("exists" in src(x) or "pickle_dump" in src(x) for x in top[0].body):
+        fail("get_oneshot_command: the array branch must not stage or test files", top[0])
+    fn_norm = copy.deepcopy(fn)
+    body_nodoc(fn_norm)[0].orelse[4] = ast.Pass()
+    oneshot_command_pin = pin(fn_norm)        # everything but the staging statement, by shape
     text = src(fn)
     for nm in ("SCRATCH_INPUT", "SCRATCH_OUTPUT", "SCRATCH_ERROR"):
         for getter, idv in (("get_array_scratch_file", "array_uuid"), ("get_job_scratch_file", "job")):
@@ -221,6 +241,7 @@ def translate(pins: dict | None = None):
                "redun/executors/aws_batch.py": ab, "redun/job_array.py": ja}.get(rel) or load(rel)
         key = f"{rel.split('/')[-1][:-3]}.{(cls + '.') if cls else ''}{name}"
         got_pins[key] = pin(find_func(mod, name, cls))
+    got_pins["command.get_oneshot_command"] = oneshot_command_pin
     if pins is not None:
         for key, exp in pins.items():
             if got_pins.get(key) != exp:
@@ -244,12 +265,13 @@ def translate(pins: dict | None = None):
               "arr_suffix"):
         v.append(f"  {k} := {cs(cfg[k])};  (* {cfg[k]!r} *)")
     v.append("  env_vars := [" + "; ".join(cs(x) for x in env_vars) + "];")
-    v.append(f"  key_task := {key_task}  (* JobDescription.task_name *)")
+    v.append(f"  key_task := {key_task};  (* JobDescription.task_name *)")
+    v.append(f"  stage_input := {stage_input}  (* get_oneshot_command, single-job input staging *)")
     v.append("|}.")
     v.append("(* The theorems of Props/C32.v are about [shipped]; this is the tie. *)")
     v.append("Lemma C32_tie : gen = shipped.")
     v.append("Proof. vm_compute. reflexivity. Qed.")
-    return "\n".join(v) + "\n", got_pins, dict(cfg, env_vars=env_vars, key_task=key_task)
+    return "\n".join(v) + "\n", got_pins, dict(cfg, env_vars=env_vars, key_task=key_task, stage_input=stage_input)
 
 
 if __name__ == "__main__":
